@@ -13,6 +13,15 @@ thread_local! {
     static BASE: Cell<usize> = Cell::new(0);
     static MIN_D: Cell<usize> = Cell::new(usize::MAX);
     static MAX_D: Cell<usize> = Cell::new(0);
+    static LAST: Cell<i64> = Cell::new(i64::MIN);
+    static ASC: Cell<bool> = Cell::new(true);
+    static DROPS: Cell<u64> = Cell::new(0);
+}
+
+fn reset_order() {
+    LAST.with(|l| l.set(i64::MIN));
+    ASC.with(|a| a.set(true));
+    DROPS.with(|d| d.set(0));
 }
 
 struct Key(i64);
@@ -24,6 +33,11 @@ impl Drop for Key {
         let d = BASE.with(|b| b.get()).saturating_sub(here);
         MIN_D.with(|m| m.set(m.get().min(d)));
         MAX_D.with(|m| m.set(m.get().max(d)));
+        if self.0 < LAST.with(|l| l.get()) {
+            ASC.with(|a| a.set(false));
+        }
+        LAST.with(|l| l.set(self.0));
+        DROPS.with(|d| d.set(d.get() + 1));
     }
 }
 
@@ -108,8 +122,12 @@ fn scenario(name: &str, n: i64) {
                 t.insert(Key(k), ());
             }
             match what {
-                "drop" => drop(t),
+                "drop" => {
+                    reset_order();
+                    drop(t)
+                }
                 "clear" => {
+                    reset_order();
                     t.clear();
                     assert_eq!(t.len(), 0);
                 }
@@ -118,6 +136,7 @@ fn scenario(name: &str, n: i64) {
                     it.next();
                     it.next_back();
                     it.next();
+                    reset_order();
                     drop(it);
                 }
                 "fullback" => {
@@ -156,6 +175,7 @@ fn scenario(name: &str, n: i64) {
         "setdrop" => {
             let mut s = SplaySet::new(cmp_key);
             s.extend(order(kind, n).into_iter().map(Key));
+            reset_order();
             drop(s);
         }
         "sweep" => {
@@ -194,10 +214,19 @@ fn scenario(name: &str, n: i64) {
         _ => panic!("unknown scenario"),
     }
     let (lo, hi) = (MIN_D.with(|m| m.get()), MAX_D.with(|m| m.get()));
-    if lo == usize::MAX {
-        println!("DONE {} {} depths=none", name, n);
+    let order = if matches!(what, "drop" | "clear" | "partial" | "setdrop") {
+        format!(
+            " teardown_order={} teardown_drops={}",
+            if ASC.with(|a| a.get()) { "ascending" } else { "mixed" },
+            DROPS.with(|d| d.get())
+        )
     } else {
-        println!("DONE {} {} depths={}..{}", name, n, lo, hi);
+        String::new()
+    };
+    if lo == usize::MAX {
+        println!("DONE {} {} depths=none{}", name, n, order);
+    } else {
+        println!("DONE {} {} depths={}..{}{}", name, n, lo, hi, order);
     }
 }
 
